@@ -111,11 +111,14 @@ def dropIdxs {α} (l : List α) (idxs : List Nat) : List α := idxs.foldl dropId
 mutual
 /-- `_drop_nodes_from_errorpaths(errors, [], sp_items)` with `base = len(self.schema_path)`;
     `idxsDesc` = `sp_items` sorted descending.  Recurses into `child_errors`
-    (which is `None`, hence skipped, for non-group errors). -/
+    (which is `None`, hence skipped, for non-group errors).
+    A *string* schema path (the `"__require_all__"` marker) is opaque to the
+    model: the code would delete one of its characters, which nothing observes;
+    the comparison with the implementation ignores the content of string paths. -/
 def Err.dropSp (base : Nat) (idxsDesc : List Nat) : Err → Err
   | .mk d s b c r k v i ks =>
       let e := Err.mk d s b c r k v i ks
-      .mk d (dropIdxs s (idxsDesc.map (base + ·))) b c r k v i
+      .mk d (if b then s else dropIdxs s (idxsDesc.map (base + ·))) b c r k v i
         (if e.isGroup then dropSpL base idxsDesc ks else ks)
 def dropSpL (base : Nat) (idxsDesc : List Nat) : List Err → List Err
   | [] => []
